@@ -138,6 +138,27 @@ class Curve:
         zi = pow(Z, -1, self.p)
         return (X * zi * zi % self.p, Y * zi * zi * zi % self.p)
 
+    def mul2(self, a, P, b, Q):
+        """a*P + b*Q by one simultaneous (Shamir) ladder; a, b >= 0."""
+        if P is INF or a == 0:
+            return self.mul(b, Q)
+        if Q is INF or b == 0:
+            return self.mul(a, P)
+        PQ = self.add(P, Q)
+        R = (1, 1, 0)
+        for i in range(max(a.bit_length(), b.bit_length()) - 1, -1, -1):
+            R = self._jdbl(*R)
+            sel = ((a >> i) & 1) | (((b >> i) & 1) << 1)
+            if sel:
+                T = P if sel == 1 else Q if sel == 2 else PQ
+                if T is not INF:
+                    R = self._jadd_affine(*R, T[0], T[1])
+        X, Y, Z = R
+        if Z == 0:
+            return INF
+        zi = pow(Z, -1, self.p)
+        return (X * zi * zi % self.p, Y * zi * zi * zi % self.p)
+
     # -- helpers -----------------------------------------------------------------------
     def sqrt(self, v):
         """square root mod p for p = 3 mod 4, or None."""
@@ -263,6 +284,8 @@ def selftest(rng=None, full=False):
             assert P == c.mul_affine(k, c.G) and c.on_curve(P)
             assert c.add(P, c.mul(j, c.G)) == c.mul((k + j) % c.n, c.G)
             assert c.mul(j, P) == c.mul(j * k % c.n, c.G)
+            assert c.mul2(k, c.G, j, P) == c.add(c.mul(k, c.G), c.mul(j, P))
+            assert c.mul2(k, P, c.n - k, P) is INF
             assert c.lincomb(j, c.G, k, P) == c.mul((j + k * k) % c.n, c.G)
             assert c.lincomb(k, P, c.n - k, P) is INF and c.lincomb(j, P, 0, c.G) == c.mul(j, P)
             checked += 1
